@@ -96,6 +96,12 @@ func Predict(op *Op) *Expected {
 		if !producer {
 			echo = InputSum(k)
 		}
+		if !producer && op.BadCast {
+			// the input cannot be cast to the declared schema: the turn fails
+			// before the state sees it
+			ex.Turns = append(ex.Turns, ExpTurn{Kind: "error", ErrType: "TypeError", ErrAny: true})
+			return ex
+		}
 		ex.Processed++
 		if st == nil {
 			if producer {
